@@ -9,7 +9,40 @@ LEVEL = "exploration"
 BUDGET = {"quick": 170, "thorough": 1500}
 
 
+KNOWN_SAME_NAME = "C08-same-name-classes-clobber"
+
+
+def same_name_program(second_name, a, b):
+    """Two classes declared in two function scopes; with second_name == "Box" they carry the same name."""
+    return ("small = fn() -> int {\n\tclass Box {\n\t\tv: int\n\t\tconstructor(self) {\n\t\t\tself.v = %d\n\t\t}\n\t\tfn value(self) -> int {\n\t\t\treturn self.v\n\t\t}\n\t}\n"
+            "\tb = Box()\n\treturn b.value()\n}\n"
+            "big = fn() -> int {\n\tclass %s {\n\t\tv: int\n\t\tconstructor(self) {\n\t\t\tself.v = %d\n\t\t}\n\t\tfn value(self) -> int {\n\t\t\treturn self.v + 40\n\t\t}\n\t}\n"
+            "\tb = %s()\n\treturn b.value()\n}\nprint small()\n" % (a, second_name, b, second_name))
+
+
+def run_same_name(case):
+    import os
+    name = case["second"]
+    world = core.fresh_world({"main.ms": same_name_program(name, case["a"], case["b"])})
+    p = core.run_cmd(world, ["run", "main.ms", "-q"], plan={"seed": case["seed"], "rules": []}, gc=case.get("gc"))
+    st = core.stats_of([p])
+    st["shape"] = core.shape_hash("same_name", name, case["a"], case["b"])
+    st["nontrivial"] = True
+    st["sample"] = {"same_name_classes": name, "a": case["a"], "b": case["b"]}
+    out = core.text(p["out"])
+    if p["rc"] != 0 or out != "%d\n" % case["a"]:
+        return {"ok": False, "class": "wrong-object", "stats": st,
+                "msg": "a method called on an object of the class declared in `small` ran code of the class declared in `big`: expected %d, got %r (rc=%d)" % (case["a"], out, p["rc"]),
+                "detail": {"program": same_name_program(name, case["a"], case["b"]), "stdout": out, "stderr": core.text(p["err"])[-800:]}}
+    return {"ok": True, "stats": st}
+
+
 def gen_cases(tier, seed):
+    # known finding: two classes with one name in different function scopes (kept in its own tiny batch)
+    for i in range(3):
+        rng = Rng(derive(seed, PROP, "same_name", i))
+        yield {"prop": PROP, "id": "s%d" % i, "batch": "same_name_classes", "second": "Box", "a": rng.range(1, 9), "b": rng.range(10, 19),
+               "seed": rng.hexbytes(16), "gc": None if i == 0 else "%d:1000000" % i}
     total = 4000 if tier == "quick" else 48000
     for i in range(total):
         rng = Rng(derive(seed, PROP, "hist", i))
@@ -19,11 +52,25 @@ def gen_cases(tier, seed):
                "envs": modelcheck.gen_envs(erng, 4 if tier == "quick" else 6)}
 
 
-run_case = modelcheck.run_case
-shrink = modelcheck.shrink
+def run_case(case):
+    if case.get("batch") == "same_name_classes":
+        return run_same_name(case)
+    return modelcheck.run_case(case)
+
+
+def shrink(case):
+    if case.get("batch") == "same_name_classes":
+        return iter(())
+    return modelcheck.shrink(case)
 
 
 def known_finding(case, res):
+    """Same-named classes in different function scopes share their compiled labels: listed only if the same program with
+    distinct class names passes."""
+    if case.get("batch") == "same_name_classes" and res.get("class") == "wrong-object" and case.get("second") == "Box":
+        twin = dict(case, second="Box2")
+        if run_same_name(twin).get("ok"):
+            return KNOWN_SAME_NAME
     return None
 
 
